@@ -530,8 +530,9 @@ func (j *c03Judge) start(c *core.Ctx, t reflect.Type) *c03State {
 		c.Inconclusive("operand-precondition:" + j.src)
 		return nil
 	}
-	st := &c03State{d: op.D, cur: m, op: op, isRoot: j.src != gen.LS && j.src != gen.LSS, colMaj: j.src == gen.LF || j.src == gen.LFconv}
-	if j.src == gen.LS || j.src == gen.LSS {
+	isView := j.src == gen.LS || j.src == gen.LSS || j.src == gen.LFS || j.src == gen.LFSS
+	st := &c03State{d: op.D, cur: m, op: op, isRoot: !isView, colMaj: j.src == gen.LF || j.src == gen.LFconv || j.src == gen.LFS || j.src == gen.LFSS}
+	if isView {
 		st.snap = op.Snap()
 	}
 	return st
